@@ -37,6 +37,24 @@ const (
 	kaSlowAnswer   = 350 * time.Millisecond
 )
 
+// trigCtx: a context that ends with DeadlineExceeded when told to (a parent context whose own deadline passes)
+type trigCtx struct {
+	context.Context
+	done chan struct{}
+	once sync.Once
+}
+
+func (c *trigCtx) Done() <-chan struct{} { return c.done }
+func (c *trigCtx) Err() error {
+	select {
+	case <-c.done:
+		return context.DeadlineExceeded
+	default:
+		return nil
+	}
+}
+func (c *trigCtx) expire() { c.once.Do(func() { close(c.done) }) }
+
 func init() {
 	register(&funcEngine{name: "ka", par: 32,
 		gen: func(rng *rand.Rand, tier string, n int, emit func(string)) {
@@ -47,13 +65,17 @@ func init() {
 			for _, s := range []string{"s s s c", "s s a s e", "a s s s n"} {
 				emit(s)
 			}
+			// the parent context ends by its own deadline (not by cancel) while a ping is in flight: the context's error, not a ping timeout
+			for _, s := range []string{"D", "a D", "a a A D"} {
+				emit(s)
+			}
 			for i := 0; i < n; i++ {
 				k := rng.Intn(7)
 				var toks []string
 				for j := 0; j < k; j++ {
 					toks = append(toks, []string{"a", "a", "A"}[rng.Intn(3)])
 				}
-				toks = append(toks, []string{"n", "c", "w", "e", "n", "c"}[rng.Intn(6)])
+				toks = append(toks, []string{"n", "c", "w", "e", "n", "c", "D"}[rng.Intn(7)])
 				emit(strings.Join(toks, " "))
 			}
 		},
@@ -64,8 +86,14 @@ func init() {
 				return Result{Out: "connect-failed"}
 			}
 			cc := &countingClient{BaseClient: bc}
+			var parent context.Context
 			parent, cancel := context.WithCancel(context.Background())
 			defer cancel()
+			var trig *trigCtx
+			if f[len(f)-1] == "D" {
+				trig = &trigCtx{Context: context.Background(), done: make(chan struct{})}
+				parent = trig
+			}
 			var mu sync.Mutex
 			k := 0
 			if f[0] == "w" {
@@ -100,6 +128,8 @@ func init() {
 					tr.waitDrained()
 				case "c":
 					cancel()
+				case "D":
+					trig.expire()
 				case "e":
 					tr.feedEOF()
 				}
@@ -132,6 +162,9 @@ func init() {
 					// and Done() closed for a connection whose peer answered every ping in time
 					r.Props = append(r.Props, viol("C16", "keepalive-error-on-healthy-connection", "outcomes %v: every ping was answered within the timeout, yet KeepAlive reports a ping timeout (the managed connection would be closed with that error)", f))
 				}
+			}
+			if last == "D" && (!errors.Is(err, context.DeadlineExceeded) || isTO) {
+				r.Props = append(r.Props, viol("C13", "deadline-misreported", "the parent context's deadline passed during a ping (the peer was healthy) but KeepAlive returned %v", err))
 			}
 			if last == "c" && !errors.Is(err, context.Canceled) {
 				r.Props = append(r.Props, viol("C13", "cancel-misreported", "parent context cancelled during a ping but KeepAlive returned %v", err))
